@@ -8,6 +8,7 @@
      precondition satisfied - whatever interleaves at the awaits (running may flip, calls may register futures).
 Liveness ("never hangs"), the is_open-then-register window between threads and close racing with calls are NOT decided.
 """
+import ast
 import z3
 from pyvc.values import *
 from pyvc.state import Raised
@@ -138,6 +139,55 @@ def build(reg, src):
                   1: loop(invariant=[lambda s: s.g('cleanups') + 1 == s.g('connects')], modifies=lambda eng, st: havoc_nc(st))},
            ensures=[inv], ensures_exc=[inv])
 
+    # ---------------- call: the future is in the pending table BEFORE the request can reach the wire (the response may arrive while the
+    # sender is still suspended in drain(); the listener would then find no entry and treat the response as a request)
+    def call_setup(eng, st):
+        mk_nc(st, running=True)
+        nc = st.env['self']
+        st.setfield(nc, 'ioloop', VOpaque(hint='ioloop', nonnull=True))
+        st.env['msg'] = VOpaque(hint='msg')
+        st.ghost['sent_frames'] = VList([])
+        st.ghost['registered_at_send'] = VList([])
+
+    def note_send(eng, st, s, r):
+        if 'registered_at_send' in st.ghost:
+            nc = st.env.get('self') or next((v for v in st.env.values() if isinstance(v, VObj) and v.cls == 'NetworkClient'), None)
+            pr = PR(st, nc)
+            mid = eng.as_obj(s.msg_id)
+            st.ghost['registered_at_send'] = VList(st.ghost['registered_at_send'].items + [VBool(has(st, pr, mid))])
+        if 'sent_frames' in st.ghost:
+            st.ghost['sent_frames'] = VList(st.ghost['sent_frames'].items + [VTuple([s.msg_id, s.msg])])
+    reg.fns[IPC + 'stream_send_msg'].ghost_at_call = note_send
+
+    def call_post(s, r):
+        regs = s.st.ghost['registered_at_send'].items
+        sent = s.st.ghost['sent_frames'].items
+        return And(VBool(len(regs) == 1 and len(sent) == 1), regs[0] if regs else VBool(False),
+                   same(sent[0].items[1], s._entry['msg']) if sent else VBool(False))
+    reg.fn(NC + 'call', setup=call_setup, returns='opaque', ensures=[call_post])
+    reg.fn(NC + 'is_open', returns=Bool, verify=False, raises=[])
+    reg.externals['uuid.uuid4'] = lambda e, st, a, k, n: [(st, VOpaque(hint='msg_id', nonnull=True))]
+
+    def run_threadsafe(e, st, a, k, n):
+        return [(st, VTuple(['cfuture', a[0]]))]
+    reg.externals['asyncio.run_coroutine_threadsafe'] = run_threadsafe
+
+    # ---------------- server side: whatever the command does, the result future of the request is completed exactly once, on every
+    # exit path of execute_server_command (otherwise the connection's listener waits forever and the caller hangs)
+    def esc_setup(eng, st):
+        cm.init_ghost(st)
+        st.env['future_loop'] = VOpaque(hint='future_loop', nonnull=True)
+        st.env['result_future'] = VOpaque(hint='result_future', nonnull=True)
+        st.env['klong'] = VOpaque(hint='klong', nonnull=True)
+        st.env['command'] = VOpaque(hint='command', nonnull=True)
+        st.env['nc'] = VOpaque(hint='nc')
+        st.ghost['completions'] = lift(0)
+        st.ghost['loop_failed'] = lift(False)
+    once = lambda s, *a: And(s.g('completions') <= 1, Or(s.g('completions') == 1, s.g('loop_failed')))
+    reg.fn(IPC + 'execute_server_command', setup=esc_setup, returns=None, ensures=[once], ensures_exc=[once])
+    reg.assumptions.append("execute_server_command: traceback.print_exception, logging.error and constructing KlongException do not raise; "
+                           "call_soon_threadsafe(f.set_result/set_exception, v) completes the future unless it raises itself")
+
     from replay import c14 as rp
     reg.replays.append((r'_run', rp.replay_run_cleanup))
     reg.replays.append((r'_listen|_cleanup', rp.replay_listen))
@@ -157,9 +207,9 @@ REGIONS = {}
 
 def configure(eng):
     im.configure(eng)
-    eng.opaque_classes |= {'KGRemoteCloseConnection', 'KGRemoteCloseConnectionException', 'KlongIPCConnectionFailureException',
+    eng.opaque_classes |= {'KGSym', 'KGRemoteFnRef', 'KlongException', 'KGRemoteCloseConnection', 'KGRemoteCloseConnectionException', 'KlongIPCConnectionFailureException',
                            'KlongIPCCreateConnectionException', 'KlongIPCConnectionClosedException'}
-    eng.opaque_methods |= {'set_result', 'set_exception', 'values', 'connect', 'set'}
+    eng.opaque_methods |= {'set_result', 'set_exception', 'values', 'connect', 'set', 'create_future', 'call_soon_threadsafe', 'set_result', 'set_exception'}
 
     prev_om = eng.hooks.get('opaque_method')
 
@@ -172,6 +222,12 @@ def configure(eng):
             e.oblige(f"{e.cur_key}#set_exception-gets-an-exception-instance@{e.site_ordinal('setexc', node)}", st, Not(is_none(args[0])), kind='callee-pre')
             st.ghost['failed_with'] = VList(st.ghost['failed_with'].items + [VTuple([obj, args[0]])])
             return [(st, NONE)]
+        if name == 'call_soon_threadsafe' and 'completions' in st.ghost and getattr(node, 'args', None) and isinstance(node.args[0], ast.Attribute) \
+                and node.args[0].attr in ('set_result', 'set_exception') and isinstance(node.args[0].value, ast.Name) and node.args[0].value.id == 'result_future':
+            s2 = st.fork()
+            s2.ghost['loop_failed'] = lift(True)            # the event loop refused the callback (closed): outside the function's control
+            st.ghost['completions'] = st.ghost['completions'] + 1
+            return [(st, NONE), e.exc(s2, '<any>', node)]
         if name == 'values':
             return [(st, VTuple(['values-of', obj]))]
         if name == 'connect' and 'connects' in st.ghost:
@@ -182,6 +238,18 @@ def configure(eng):
                     (s2, Raised(VExc('KlongIPCCreateConnectionException', site=node.lineno))), e.exc(s2.fork(), '<any>', node)]
         return prev_om(e, obj, name, args, kwargs, st, node) if prev_om else None
     eng.hooks['opaque_method'] = opaque_method
+
+    prev_m = eng.hooks.get('method')
+
+    def method(e, o, m, args, kwargs, st, node):
+        if isinstance(o, VTuple) and o.items and o.items[0] == 'cfuture' and m == 'result':
+            return [(st, o.items[1])]
+        return prev_m(e, o, m, args, kwargs, st, node) if prev_m else None
+    eng.hooks['method'] = method
+    eng.module_names |= {'uuid', 'asyncio', 'traceback', 'logging'}
+    eng.stable_opaque_attrs |= {'set_result', 'set_exception', '_context', '__traceback__'}
+    eng.reg.externals['traceback.print_exception'] = lambda e, st, a, k, n: [(st, NONE)]
+    eng.reg.externals['logging.error'] = lambda e, st, a, k, n: [(st, NONE)]
 
     def for_element(e, it, st, node):
         if isinstance(it, VTuple) and it.items and it.items[0] == 'values-of':
